@@ -424,6 +424,57 @@ fn show_op(op: &WOp) -> String {
     trunc(&s, 500)
 }
 
+const GOPS: [&str; 4] = ["grow_resize_zero", "grow_resize_value", "grow_push", "grow_extend"];
+
+/// Growth of a Vec-backed vector over dirty storage with spare words: the new
+/// elements hold what was asked for, and no storage bit at or beyond the new end
+/// (inside the words that existed before) changes.
+fn grow_case<W: TW>(c: &mut Case, width: usize, kind: usize, g: Garbage, spare: usize, maxlen: usize) {
+    let bits = bits_of::<W>();
+    let opname = GOPS[kind];
+    let len = len_near_boundary(c.rng(), width, bits, maxlen);
+    let m = gen_vals(c.rng(), len, width);
+    let words = make_words::<W>(c.rng(), &m, width, g, spare, 1);
+    let nwords = words.len();
+    // elements that fit in the existing storage, and sometimes a few more
+    let room = (nwords * bits).saturating_sub(len * width) / width.max(1);
+    let add = match c.rng().random_range(0..4u32) {
+        0 => 1,
+        1 => room.max(1),
+        2 => c.rng().random_range(1..=room.max(1)),
+        _ => room + c.rng().random_range(1..6),
+    };
+    let new_vals: Vec<u128> = match kind {
+        0 => vec![0; add],
+        1 => vec![gen_val(c.rng(), width); add],
+        _ => gen_vals(c.rng(), add, width),
+    };
+    let what = format!("BitFieldVec<{}> width {} len {} over Vec storage {} (garbage {}, {} spare words); {} of {} elements {}", W::NAME, width, len, show_words(&words), g.name(), spare, opname, add, show_vals(&new_vals));
+    let mut b = unsafe { BitFieldVec::<W, Vec<W>>::from_raw_parts(words.clone(), width, len) };
+    let r = catch(|| match kind {
+        0 | 1 => b.resize(len + add, W::from128(new_vals[0])),
+        2 => new_vals.iter().for_each(|&x| b.push(W::from128(x))),
+        _ => b.extend(new_vals.iter().map(|&x| W::from128(x))),
+    });
+    if let Err(msg) = r {
+        c.fail(opname, "panic", &msg, &format!("{} panicked; {}", opname, what));
+        return;
+    }
+    let mut m2 = m.clone();
+    m2.extend_from_slice(&new_vals);
+    let got = read_all(&b);
+    c.check(opname, blen(&b) == m2.len() && got == m2, || format!("contents after growing differ from the model at {:?} (got {:#x?} want {:#x?}); {}", first_diff(&got, &m2), at(&got, first_diff(&got, &m2)), at(&m2, first_diff(&got, &m2)), what));
+    let (after, _, _) = b.into_raw_parts();
+    // only the words that existed before are compared; the bits of the new elements may change
+    let keep = nwords.min(after.len());
+    c.check(opname, after.len() >= nwords.min((m2.len() * width).div_ceil(bits)), || format!("the backend shrank to {} words; {}", after.len(), what));
+    check_outside(c, opname, &words[..keep], &after[..keep], 0, keep, m2.len() * width, &[(len * width, m2.len() * width)], &what);
+    if spare > 0 || (len * width) % bits != 0 {
+        c.nontrivial();
+    }
+    c.describe(|| what.clone());
+}
+
 fn write_case<W: TW>(c: &mut Case, width: usize, kind: usize, g: Garbage, spare: usize, canary: bool, maxlen: usize) {
     let bits = bits_of::<W>();
     let opname = WOPS[kind];
@@ -956,6 +1007,21 @@ fn run<W: C14Word>(ctx: &mut Ctx) {
                     ctx.case(&v, &format!("write/{}/{}/{}", WOPS[kind], wc, if spare > 0 { "spare" } else { "nospare" }), WOPS[kind], |c| {
                         c.set_cell(format!("{}|write|{}|w{}|{}|+{}w|{}", vname::<W>(), WOPS[kind], width, g.name(), spare, if canary { "canary" } else { "vec" }));
                         write_case::<W>(c, width, kind, *g, spare, canary, maxlen_for(width));
+                    });
+                }
+            }
+        }
+        // growth over dirty storage (Vec backend): resize with zero / a value, push, extend
+        for kind in 0..GOPS.len() {
+            for (gi, g) in Garbage::ALL.iter().enumerate() {
+                for rep in 0..ctx.scale(1, 2, 4) {
+                    if ctx.small && (gi + kind + wi) % 3 != 0 {
+                        continue;
+                    }
+                    let spare = 1 + (kind + gi + rep + wi) % 3;
+                    ctx.case(&v, &format!("write/{}/{}/spare", GOPS[kind], wc), GOPS[kind], |c| {
+                        c.set_cell(format!("{}|grow|{}|w{}|{}|+{}w", vname::<W>(), GOPS[kind], width, g.name(), spare));
+                        grow_case::<W>(c, width, kind, *g, spare, maxlen_for(width));
                     });
                 }
             }
